@@ -62,6 +62,18 @@ var Mutants = []Mutant{
 	{ID: "unary-operand-type", Props: []string{"C03"}, Rule: "R-CONCRETE", File: "pkg/parser/ast.go", Find: "\tif u.Op == OP_BANG {\n\t\treturn BOOL_TYPE\n\t}\n\treturn NUM_TYPE // OP_MINUS", Replace: "\treturn u.Right.Type()", Expect: "(*UnaryExpression).Type#returns-own-type", Describe: "-[] carries the untyped empty array type into wrapAny"},
 	{ID: "matches-wildcard-first", Props: []string{"C04", "C05"}, Rule: "R-TYPEREL", File: "pkg/parser/type.go", Find: "\t\tcase left.Name != right.Name:\n\t\t\treturn false\n\t\tcase left == EMPTY_ARRAY, left == EMPTY_MAP, right == EMPTY_ARRAY, right == EMPTY_MAP:\n\t\t\treturn true\n", Replace: "\t\tcase left == EMPTY_ARRAY, left == EMPTY_MAP, right == EMPTY_ARRAY, right == EMPTY_MAP:\n\t\t\treturn true\n\t\tcase left.Name != right.Name:\n\t\t\treturn false\n", Expect: "matches#wildcard", Describe: "an empty literal matches operands of any kind"},
 	{ID: "infer-stops-early", Props: []string{"C04"}, Rule: "R-TYPEREL", File: "pkg/parser/type.go", Find: "\tt2 := *t\n\tt2.Sub = t.Sub.infer()\n\treturn &t2", Replace: "\tif t.Sub != EMPTY_ARRAY && t.Sub != EMPTY_MAP {\n\t\treturn t\n\t}\n\tt2 := *t\n\tt2.Sub = t.Sub.infer()\n\treturn &t2", Expect: "infer#returns-receiver-only-for-basic-types", Describe: "infer looks one level down only"},
+	{ID: "decl-builtin-global-only-toplevel", Props: []string{"C02", "C04", "C05"}, Rule: "R-DECLCHECK", File: "pkg/parser/parser.go",
+		Find:    "\tif _, ok := p.builtins.Globals[v.Name]; ok {\n\t\tmsg := fmt.Sprintf(\"redeclaration of builtin variable %q\", v.Name)\n\t\tp.appendErrorForToken(msg, tok)\n\t\treturn false\n\t}\n\tif p.scope.inLocalScope(v.Name) { // already declared in current scope\n\t\tmsg := fmt.Sprintf(\"redeclaration of %q\", v.Name)\n",
+		Replace: "\tif p.scope.inLocalScope(v.Name) { // already declared in current scope\n\t\tmsg := fmt.Sprintf(\"redeclaration of %q\", v.Name)\n\t\tif _, ok := p.builtins.Globals[v.Name]; ok {\n\t\t\tmsg = fmt.Sprintf(\"redeclaration of builtin variable %q\", v.Name)\n\t\t}\n",
+		Expect:  "validateVarDecl#validator:builtin-global", Describe: "err can be shadowed with another type inside a function"},
+	{ID: "decl-set-ignores-validator", Props: []string{"C02", "C04", "C05"}, Rule: "R-DECLCHECK", File: "pkg/parser/parser.go",
+		Find:    "\tif decl.Type() != nil && p.validateVarDecl(decl.Var, decl.token, false /* allowUnderscore */) {\n\t\tp.scope.set(decl.Var.Name, decl.Var)\n\t\tp.assertEOL()\n\t}",
+		Replace: "\tif decl.Type() != nil {\n\t\tp.validateVarDecl(decl.Var, decl.token, false /* allowUnderscore */)\n\t\tp.scope.set(decl.Var.Name, decl.Var)\n\t\tp.assertEOL()\n\t}",
+		Expect:  "parseTypedDeclStatement#set-validated", Describe: "a rejected typed declaration still replaces the variable in the scope"},
+	{ID: "decl-event-param-unvalidated", Props: []string{"C02", "C04", "C05"}, Rule: "R-DECLCHECK", File: "pkg/parser/parser.go",
+		Find:    "\t\tp.validateVarDecl(param, param.token, true /* allowUnderscore */)\n\t\texptectedType := expectedParams[i].Type()",
+		Replace: "\t\texptectedType := expectedParams[i].Type()",
+		Expect:  "addEventParamsToScope#set-validated", Describe: "handler parameters are not validated"},
 	// C05 / C06
 	{ID: "break-no-eol", Props: []string{"C05", "C06"}, Rule: "R-EOLSTATE", File: "pkg/parser/parser.go", Find: "\tp.advance() // advance past BREAK token\n\tp.assertEOL()\n", Replace: "\tp.advance() // advance past BREAK token\n", Expect: "parseBreakStatement#skip", Describe: "text after break is skipped"},
 	{ID: "if-end-no-eol", Props: []string{"C05", "C06"}, Rule: "R-EOLSTATE", File: "pkg/parser/parser.go", Find: "\tp.assertEnd()\n\tp.advance()\n\tp.assertEOL()\n\tp.recordComment(ifStmt)", Replace: "\tp.assertEnd()\n\tp.advance()\n\tp.recordComment(ifStmt)", Expect: "parseIfStatement#skip", Describe: "text after the end of an if is skipped"},
